@@ -56,9 +56,12 @@ Workers == IF cfg.c > 0 THEN 1..cfg.c ELSE {0}
 Cap     == 2 * cfg.c
 
 \* a slot / pipeline result: error state, value token, error tokens it matches
-Unset        == [iserr |-> FALSE, tok |-> 0, errs |-> {}, set |-> FALSE]
-OkRes(t)     == [iserr |-> FALSE, tok |-> t, errs |-> {}, set |-> TRUE]
-ErrRes(E)    == [iserr |-> TRUE,  tok |-> 0, errs |-> E,  set |-> TRUE]
+Unset        == [iserr |-> FALSE, tok |-> 0, errs |-> {}, set |-> FALSE, soft |-> FALSE]
+OkRes(t)     == [iserr |-> FALSE, tok |-> t, errs |-> {}, set |-> TRUE,  soft |-> FALSE]
+ErrRes(E)    == [iserr |-> TRUE,  tok |-> 0, errs |-> E,  set |-> TRUE,  soft |-> FALSE]
+\* an error Result returned by the exec function together with a nil Go error: it is stored in the
+\* slot as it is, but it is not a failure of the pipeline (no retry, no fallback, no stop)
+SoftErr(E)   == [iserr |-> TRUE,  tok |-> 0, errs |-> E,  set |-> TRUE,  soft |-> TRUE]
 SkipRes      == ErrRes({})          \* "batch stopped due to error" / "context cancelled": fresh errors
 
 Idle == [st |-> "idle", item |-> 0, att |-> 0, last |-> 0, res |-> Unset]
@@ -84,7 +87,7 @@ EvBPrep(o)   == [ev |-> "bprep", sok |-> TRUE, out |-> o, n |-> IF o = "ok" THEN
 EvExecIn(w, i, k) == [ev |-> "execin", item |-> i, k |-> k, arg |-> ItemTok(i), aid |-> TRUE, gid |-> w]
 EvExecOut(w, i, k, o) == [ev |-> "execout", item |-> i, k |-> k, out |-> o.out,
                           val |-> IF o.out = "ok" THEN ValTok(i, k) ELSE 0,
-                          err |-> IF o.out = "err" THEN ErrTok(i, k) ELSE 0,
+                          err |-> IF o.out \in {"err", "eres"} THEN ErrTok(i, k) ELSE 0,
                           cancel |-> o.cancel, gid |-> w]
 EvFb(w, i, last, o) == [ev |-> "fb", item |-> i, arg |-> ItemTok(i), aid |-> TRUE, errseen |-> <<last>>, out |-> o.out,
                         val |-> IF o.out = "ok" THEN FbValTok(i) ELSE 0,
@@ -208,6 +211,8 @@ PExecOut(w, o) ==
   /\ ctx' = IF o.cancel THEN "done" ELSE ctx
   /\ IF o.out = "ok"
        THEN SetW(w, [W(w) EXCEPT !.st = "record", !.att = @ + 1, !.res = OkRes(ValTok(W(w).item, W(w).att + 1))])
+       ELSE IF o.out = "eres"
+       THEN SetW(w, [W(w) EXCEPT !.st = "record", !.att = @ + 1, !.res = SoftErr({ErrTok(W(w).item, W(w).att + 1)})])
        ELSE SetW(w, [W(w) EXCEPT !.st = "loop", !.att = @ + 1, !.last = ErrTok(W(w).item, W(w).att + 1)])
   /\ UNCHANGED <<cfg, main, queue, nxt, wg, stop, slots, ret>>
 
@@ -265,7 +270,7 @@ CtxCheck(w) ==
 Record(w) ==
   /\ cfg.c > 0 /\ W(w).st = "record"
   /\ slots' = [slots EXCEPT ![W(w).item] = W(w).res]
-  /\ stop' = (stop \/ (W(w).res.iserr /\ cfg.stopmode))
+  /\ stop' = (stop \/ (W(w).res.iserr /\ ~W(w).res.soft /\ cfg.stopmode))
   /\ wg' = wg - 1
   /\ SetW(w, Idle)
   /\ UNCHANGED <<cfg, main, queue, nxt, ctx, ret, h>>
@@ -292,7 +297,7 @@ SeqTop ==
 
 SeqRecord ==
   /\ cfg.c = 0 /\ W(0).st = "record"
-  /\ IF W(0).res.iserr /\ cfg.stopmode
+  /\ IF W(0).res.iserr /\ ~W(0).res.soft /\ cfg.stopmode
        THEN /\ slots' = SkipFrom([slots EXCEPT ![W(0).item] = W(0).res], W(0).item + 1)    \* break
             /\ main' = [pc |-> "post"] /\ UNCHANGED nxt
        ELSE /\ slots' = [slots EXCEPT ![W(0).item] = W(0).res]
